@@ -75,7 +75,8 @@ def run_native(test, scenarios, repo=None, timeout=900):
     if os.path.exists(outp):
         os.remove(outp)
     env = dict(os.environ, CARGO_TARGET_DIR=os.path.join(nd, "target"), VERIF_SCENARIOS=inp, VERIF_OBS=outp, CARGO_NET_OFFLINE="true")
-    p = subprocess.run(["cargo", "test", "--offline", "--quiet", "--test", "verif_" + test, "--", "--nocapture"], cwd=dst, env=env,
+    feats = ["--features", "dir"] if test == "dir_witness" else []
+    p = subprocess.run(["cargo", "test", "--offline", "--quiet"] + feats + ["--test", "verif_" + test, "--", "--nocapture"], cwd=dst, env=env,
                        stdout=subprocess.PIPE, stderr=subprocess.STDOUT, text=True, timeout=timeout)
     if not os.path.exists(outp):
         raise RuntimeError("native run failed: " + p.stdout[-800:])
@@ -816,7 +817,64 @@ def try_upgrade(pid, ob, repo=None):
     ob["native_replay"] = {"status": "no failing input among %d scenarios" % len(scs), "reproduced": False, "searched": len(scs)}
 
 
+# ---------------------------------------------------------------- FsDir::get path validation (native/dir_witness.rs)
+def path_refused(p):
+    return p.startswith("/") or "\0" in p or ".." in p.split("/")
+
+
+def fam_paths():
+    segs = ["a", "sub", "..", ".", "...", "..a", "a..", "", "secret"]
+    out, k = [], 0
+    seen = set()
+    for n in (1, 2, 3, 4):
+        for combo in itertools.product(segs, repeat=n):
+            for lead in ("", "/"):
+                for trail in ("", "/"):
+                    p = lead + "/".join(combo) + trail
+                    if p in seen or len(p) == 0:
+                        continue
+                    seen.add(p)
+                    k += 1
+                    out.append({"id": "pa%d" % k, "path": p})
+    for p in ("a\0", "\0a", "a/\0/b", "a/..\0", "..\0"):
+        k += 1
+        out.append({"id": "pa%d" % k, "path": p})
+    return out
+
+
+def path_line(sc):
+    return "%s|%s" % (sc["id"], sc["path"].encode().hex())
+
+
+def oracle_path(pid, sc, obs):
+    if pid != "C19":
+        return None
+    want = path_refused(sc["path"])
+    got = obs == "invalid"
+    if obs == "ok:ESCAPED":
+        return "path %r left the base directory and read the secret file outside it" % sc["path"]
+    if want and not got:
+        return "path %r must be refused (absolute, NUL or `..` segment) but FsDir::get returned %s" % (sc["path"], obs)
+    if got and not want:
+        return "path %r is allowed by the property but was refused as invalid input" % sc["path"]
+    return None
+
+
+def run_paths(pid, repo=None):
+    scs = fam_paths()
+    lines = run_native("dir_witness", [path_line(x) for x in scs], repo)
+    for sc, ln in zip(scs, lines):
+        obs = ln.split("|", 1)[1]
+        why = oracle_path(pid, sc, obs)
+        if why:
+            return {"status": "reproduced on the real code", "reproduced": True, "test": "dir_witness", "scenario": sc, "scenario_line": path_line(sc),
+                    "observation": ln, "violates": pid, "what": why, "searched": len(scs), "bounded": "witness family fam_paths (<= 4 segments)"}
+    return {"status": "no failing input among %d paths" % len(scs), "reproduced": False, "searched": len(scs)}
+
+
 def fallback(pid, unit, repo=None):
+    if unit == "path":
+        return run_paths(pid, repo)
     """Bounded native stand-in for a unit the verifier could not decide (lost anchor, unsupported construct, rlimit):
     run every witness family of the unit against the real code and apply the oracles of property `pid`.
     Returns a native_replay record for the first violating scenario, or a record with reproduced=False."""
@@ -864,7 +922,9 @@ def replay_file(path, repo=None):
         print("no concrete input recorded (no-failing-input-found); the obligation above is the violation")
         return 0
     ln = run_native(nr["test"], [nr["scenario_line"]], repo)[0]
-    if nr["test"] == "stream_witness":
+    if nr["test"] == "dir_witness":
+        why = oracle_path(rec["property"], nr["scenario"], ln.split("|", 1)[1])
+    elif nr["test"] == "stream_witness":
         why = oracle_stream(rec["property"], nr["scenario"], parse_stream_obs(ln))
     else:
         why = all_serve_oracles(rec["property"], nr["scenario"], parse_obs(ln))
@@ -879,6 +939,9 @@ def replay_file(path, repo=None):
 
 if __name__ == "__main__":
     fam = sys.argv[1]
+    if fam == "pa":
+        print(run_paths("C19"))
+        sys.exit(0)
     if fam in ("st", "dc"):
         scs = fam_stream_ops(int(sys.argv[2]) if len(sys.argv) > 2 else 4) if fam == "st" else fam_stream_disconnect()
         lines = run_native("stream_witness", [stream_line(x) for x in scs])
